@@ -310,10 +310,26 @@ class Driver:
         col = self.pick_col()
         if col is None:
             return None
+        bares = [c for c in self.w.cols.values() if c.backend == "bare"]
+        if bares and self.rng.random() < 0.45:
+            col = self.rng.choice(bares)
         w, rng = self.w, self.rng
         base = w.url(col.path) + rng.choice([".git/", ".git/", ".git", ".GIT/"])
+        if col.backend == "bare":
+            # a bare repository has no control directory: its own directories take that place
+            base = w.url(col.path) + rng.choice(["refs/heads/", "refs/heads/", "refs/", "objects/", "hooks/", "info/"])
         k = rng.random()
         tok = w.new_token()
+        if col.backend == "bare" and k < 0.45:
+            # a collection made inside the repository, then a member put into it
+            sub = base + "x%s/" % tok
+            self.count("control_dir_bare_nested")
+            s, r = w.call("ctl:mkcol", "MKCOL", sub, [], None)
+            w.notify(s, r)
+            nm = "ctl-%s.ics" % tok
+            s, r = w.call("ctl:put", "PUT", sub + nm, [("Content-Type", "text/calendar")], gen.ical(rng, "ctl-" + tok, tok, rich=False))
+            w.notify(s, r)
+            return [col.path]
         if k < 0.3:
             nm = "ctl-%s.ics" % tok
             s, r = w.call("ctl:put", "PUT", base.rstrip("/") + "/" + nm, [("Content-Type", "text/calendar")], gen.ical(rng, "ctl-" + tok, tok, rich=False))
